@@ -2,6 +2,7 @@ package iavl
 
 import (
 	"encoding/binary"
+	"errors"
 	"fmt"
 )
 
@@ -69,6 +70,9 @@ func NewCompressImporter(importer NodeImporter) NodeImporter {
 }
 
 func (i *CompressImporter) Add(node *ExportNode) error {
+	if node == nil {
+		return errors.New("node cannot be nil")
+	}
 	if node.Height == 0 {
 		key, err := deltaDecode(node.Key, i.lastKey)
 		if err != nil {
@@ -80,6 +84,9 @@ func (i *CompressImporter) Add(node *ExportNode) error {
 		i.minKeyStack = append(i.minKeyStack, key)
 		i.versionStack = append(i.versionStack, node.Version)
 	} else {
+		if len(i.minKeyStack) < 2 || len(i.versionStack) < 2 {
+			return errors.New("invalid node stream: a branch node must follow its two subtrees")
+		}
 		// use the min-key in right branch as the node key
 		node.Key = i.minKeyStack[len(i.minKeyStack)-1]
 		// leave the min-key in left branch in the stack
@@ -113,6 +120,9 @@ func deltaDecode(key, lastKey []byte) ([]byte, error) {
 		return key, nil
 	}
 
+	if shared > uint64(len(lastKey)) {
+		return nil, fmt.Errorf("invalid key delta: %d bytes shared with a previous key of %d bytes", shared, len(lastKey))
+	}
 	newKey := make([]byte, shared+uint64(len(key)))
 	copy(newKey, lastKey[:shared])
 	copy(newKey[shared:], key)
